@@ -158,6 +158,10 @@ func (C04) Explore(x *kernel.Explorer, seed uint64) {
 		plan := &kernel.Plan{Prop: "C04", Seed: kernel.Mix(seed, uint64(i)), Swarm: map[string]int64{
 			"chunk": int64(r.Intn(4)), "colseed": int64(r.Uint32()), "stranger": int64(r.Intn(2)),
 			"mysql": int64(r.Intn(3) / 2), "depeof": int64(r.Intn(2)), "wyield": int64(r.Intn(2))}}
+		if r.Chance(1, 4) {
+			// a key store read fails with an I/O error somewhere in the session
+			plan.Swarm["keyfault"] = int64(1 + r.Intn(40))
+		}
 		n := 2 + r.Intn(8)
 		for j := 0; j < n; j++ {
 			kind := r.Pick("insert", "insert", "insert-multi", "insert-nocols", "update", "select", "select-star", "insert-returning", "db-error")
@@ -212,7 +216,8 @@ func (C04) Run(t *testing.T, plan *kernel.Plan, keepLog bool) *kernel.Result {
 		start := time.Now()
 		rng := kernel.NewRNG(plan.Seed, 0xd04c)
 		cols := drawCols(kernel.NewRNG(uint64(plan.Sw("colseed")), 4), "")
-		pw, err := NewPgWorld(w, rng, PgWorldConfig{SchemaYAML: schemaYAML(cols), Clients: []string{owner, stranger}, ChunkMode: int(plan.Sw("chunk"))})
+		pw, err := NewPgWorld(w, rng, PgWorldConfig{SchemaYAML: schemaYAML(cols), Clients: []string{owner, stranger}, ChunkMode: int(plan.Sw("chunk")),
+			KeyFaultNth: int(plan.Sw("keyfault"))})
 		if err != nil {
 			w.Violate("C04", "world-builds", "pg", err.Error())
 			return
@@ -339,7 +344,11 @@ func (C04) Run(t *testing.T, plan *kernel.Plan, keepLog bool) *kernel.Result {
 		for _, p := range pw.Panics {
 			w.Violate("C14", "no-panic", "pg/proxy", p)
 		}
-		if run.Stuck {
+		keyFault := pw.KeyFaultFired()
+		if keyFault {
+			w.Res.Fired["keystore-io-error"]++
+		}
+		if run.Stuck && !keyFault {
 			w.Violate("C04", "session-makes-progress", "pg", fmt.Sprintf("session stuck after %d deliveries; client error %q; proxy errors %v", run.Steps, run.ClientErr, run.ProxyErrs))
 			return
 		}
@@ -352,6 +361,31 @@ func (C04) Run(t *testing.T, plan *kernel.Plan, keepLog bool) *kernel.Result {
 					break
 				}
 			}
+		}
+		if keyFault {
+			// A key could not be read from storage in the middle of the session: statements may fail and the
+			// session may end, but nothing protected may have gone to the database in clear (checked above) and
+			// nothing but the right value may have been revealed.
+			for i, st := range script {
+				res := run.Results[i]
+				if !strings.HasPrefix(st.Tag, "final:") || res.Err != "" || len(res.Rows) != 1 || len(res.Rows[0]) != len(colNames) {
+					continue
+				}
+				var id int
+				fmt.Sscanf(st.Tag[6:], "%d", &id)
+				for ci, c := range cols {
+					cell := decodeClientCell(res.Fields[2+ci].DataTypeOID, res.Fields[2+ci].Format, res.Rows[0][2+ci])
+					for _, other := range rows {
+						if other.id != id && len(other.vals[ci]) >= 8 && string(cell) == other.vals[ci] {
+							w.Violate("C04", "owner-reads-original", "pg/keystore-fault/"+c.describe(), fmt.Sprintf("row %d column %s came back as row %d's value", id, c.Name, other.id))
+						}
+					}
+				}
+			}
+			w.Probe("keystore-fault-session")
+			w.State(fmt.Sprintf("cols=%v rows=%d keyfault", len(cols), len(rows)))
+			w.Res.SimNanos = int64(time.Since(start))
+			return
 		}
 		// (c) uncovered statements arrive byte-identical
 		sawPlain := false
